@@ -368,6 +368,74 @@ func heavyFamily(budget time.Duration) mc.Family {
 	}
 }
 
+// longSplitFamily: long programs (thousands of lines) fed in one call and in 2..7
+// calls cut at line ends: limits that are kept per call instead of per
+// interpreter show as different results.
+func longSplitFamily(budget time.Duration) mc.Family {
+	type long struct {
+		name  string
+		lines []string
+	}
+	var ls []long
+	for _, n := range []int{999, 1000, 1001, 1500, 5000} {
+		var l []string
+		for i := 0; i < n; i++ {
+			l = append(l, fmt.Sprintf("%%%%Page: %d %d\n/p%d %d def\n", i, i, i%7, i))
+		}
+		ls = append(ls, long{fmt.Sprintf("%d structured comments, each followed by a definition", n), l})
+	}
+	{
+		var l []string
+		for i := 0; i < 3000; i++ {
+			l = append(l, fmt.Sprintf("/k%d %d def %% comment %d\n", i%50, i, i))
+		}
+		ls = append(ls, long{"3000 definitions with trailing comments", l})
+		var m []string
+		for i := 0; i < 700; i++ {
+			m = append(m, fmt.Sprintf("%d\n", i), "pop\n")
+		}
+		ls = append(ls, long{"1400 one-token lines", m})
+	}
+	parts := []int{2, 3, 5, 7}
+	return mc.Family{
+		Name: "long-programs-in-several-calls", Items: len(ls) * len(parts), Budget: budget,
+		Rule: fmt.Sprintf("%d programs of 1400 .. 10000 lines (up to 5000 structured comments) fed to one interpreter in one call and in %v calls cut at line ends: operand stack, dictionaries, structured comments and error must be the same; non-trivial = all", len(ls), parts),
+		Body: func(c *mc.Ctx, item int) mc.Verdict {
+			l := ls[item%len(ls)]
+			k := parts[item/len(ls)]
+			obs := func(pieces []string) string {
+				intp := postscript.NewInterpreter()
+				intp.MaxOps = 1000000
+				var err error
+				for _, p := range pieces {
+					if err = intp.ExecuteString(p); err != nil {
+						break
+					}
+				}
+				return fmt.Sprintf("%s DSC=%d:%v ERR %v", pscmp.Canon(opTable, intp), len(intp.DSC), intp.DSC, err)
+			}
+			whole := obs([]string{strings.Join(l.lines, "")})
+			var pieces []string
+			for i := 0; i < k; i++ {
+				pieces = append(pieces, strings.Join(l.lines[i*len(l.lines)/k:(i+1)*len(l.lines)/k], ""))
+			}
+			split := obs(pieces)
+			c.Steps(2)
+			if whole != split {
+				n := 0
+				for n < len(whole) && n < len(split) && whole[n] == split[n] {
+					n++
+				}
+				v := mc.Fail("C12:long-split:differs", fmt.Sprintf("%s: in one call …%s; in %d calls …%s", l.name, clipO(whole[max(0, n-60):]), k, clipO(split[max(0, n-60):])))
+				v.Render = l.name
+				return v
+			}
+			return mc.Pass("same", true)
+		},
+		Describe: func(i int) string { return fmt.Sprintf("%s in %d calls", ls[i%len(ls)].name, parts[i/len(ls)]) },
+	}
+}
+
 func clipO(s string) string {
 	if len(s) > 160 {
 		return "…" + s[len(s)-160:]
@@ -391,7 +459,7 @@ func main() {
 				budget = 25 * time.Minute
 				dev, splits = 3, 4
 			}
-			return []mc.Family{deliveryFamily(entries(), dev, budget), splitFamily(splits, budget), heavyFamily(budget)}
+			return []mc.Family{deliveryFamily(entries(), dev, budget), splitFamily(splits, budget), heavyFamily(budget), longSplitFamily(budget)}
 		},
 	})
 }
